@@ -1376,7 +1376,9 @@ def _memo_sites(prog, mi, ci, fn):
                 return any(reads_table_arith(d.value, depth - 1) for d in walk_no_nested(fn)
                            if isinstance(d, ast.Assign) and len(d.targets) == 1 and isinstance(d.targets[0], ast.Name) and d.targets[0].id == v.id)
             return False
-        if handed_back and tested and not reads_table_arith(val):
+        updated_in_place = any(isinstance(a, ast.AugAssign) and isinstance(a.target, ast.Subscript) and unparse(a.target.value) == ttxt
+                               for a in walk_no_nested(fn))          # `t[k] += 1` elsewhere in the function: a counter
+        if handed_back and tested and not reads_table_arith(val) and not updated_in_place:
             out.append((ttxt, st.slice, st, _self_attr(table)))
     return out
 
